@@ -9,6 +9,7 @@ import (
 	"os"
 	"sort"
 	"strings"
+	"time"
 
 	"github.com/pilosa/pilosa/logger"
 	"verif/simrt"
@@ -434,6 +435,16 @@ func (h *l2) read(op simrt.Op) {
 		}
 	case "rforeach", "rfull":
 		h.fullCheck()
+	case "rblocks":
+		h.checkBlocks()
+	case "twin":
+		h.twinCheck(I[0], I[1])
+	case "rtop":
+		h.checkTop(I)
+	case "rmutex":
+		h.checkMutex()
+	case "sleep":
+		simrt.Sleep(time.Duration(I[0]) * time.Second)
 	case "rblock":
 		b := int(I[0])
 		gr, gc := f.blockData(b)
